@@ -271,7 +271,8 @@ func (self *AofFile) ReadHeader() error {
 		return err
 	}
 	if n != 12 {
-		return errors.New("File is not AOF FIle")
+		// the header was cut short by a crash while the file was being created: an empty log
+		return io.EOF
 	}
 	if string(buf[:8]) != "SLOCKAOF" {
 		return errors.New("File is not AOF File")
@@ -288,7 +289,7 @@ func (self *AofFile) ReadHeader() error {
 			return err
 		}
 		if n != int(headerLen) {
-			return errors.New("File is not AOF FIle")
+			return io.EOF
 		}
 	}
 	self.size += 12 + int(headerLen)
